@@ -946,7 +946,13 @@ pub fn main(cases: &'static [Case]) -> ! {
     }
     let t0 = now();
     let seed = cli.seed;
-    let mut stats = run_parallel(&cli, NAMES, |run, st| {
+    let describe = |run: u64| -> Option<Violation> {
+        let mut rng = Rng::for_run(seed, ENGINE_ID, 0, run);
+        let case = &cases[rng.usize_below(cases.len())];
+        let ops = gen_ops(&mut rng, case.n, case.n_disabled);
+        Some(Violation { oracle: String::new(), signature: String::new(), run, case: case.name.to_string(), script: ops.iter().map(|o| o.line()).collect(), expected: String::new(), observed: String::new() })
+    };
+    let mut stats = run_parallel(&cli, "C10", NAMES, &describe, |run, st| {
         let mut rng = Rng::for_run(seed, ENGINE_ID, 0, run);
         let ci = rng.usize_below(cases.len());
         let case = &cases[ci];
